@@ -20,6 +20,7 @@ import (
 	"github.com/internetarchive/Zeno/internal/pkg/log"
 	"github.com/internetarchive/Zeno/internal/pkg/postprocessor/domainscrawl"
 	"github.com/internetarchive/Zeno/internal/pkg/stats"
+	"github.com/internetarchive/Zeno/internal/pkg/verifhook"
 	"github.com/internetarchive/Zeno/pkg/models"
 )
 
@@ -152,6 +153,9 @@ func (a *archiver) worker(workerID string) {
 	stats.ArchiverRoutinesIncr()
 	defer stats.ArchiverRoutinesDecr()
 
+	verifhook.At("arch.start", workerID)
+	defer verifhook.At("arch.exit", workerID)
+
 	for {
 		select {
 		case <-a.ctx.Done():
@@ -159,10 +163,13 @@ func (a *archiver) worker(workerID string) {
 			return
 		case <-controlChans.PauseCh:
 			logger.Debug("received pause event")
+			verifhook.At("arch.paused", workerID)
 			controlChans.ResumeCh <- struct{}{}
+			verifhook.At("arch.woken", workerID)
 			logger.Debug("received resume event")
 		case seed, ok := <-a.inputCh:
 			if ok {
+				verifhook.At("arch.take", seed, workerID)
 				logger.Debug("received seed", "seed", seed.GetShortID(), "depth", seed.GetDepth(), "hops", seed.GetURL().GetHops())
 
 				if err := seed.CheckConsistency(); err != nil {
@@ -174,6 +181,7 @@ func (a *archiver) worker(workerID string) {
 				} else {
 					archive(workerID, seed)
 				}
+				verifhook.At("arch.done", seed, workerID)
 
 				select {
 				case <-a.ctx.Done():
@@ -260,6 +268,7 @@ func archive(workerID string, seed *models.Item) {
 				}
 
 				resp, err = client.Do(req)
+				verifhook.At("arch.item.response", item, retry, resp, err)
 				if err != nil {
 					if retry < config.Get().MaxRetry {
 						logger.Warn("retrying request", "err", err.Error(), "seed_id", seed.GetShortID(), "item_id", item.GetShortID(), "depth", item.GetDepth(), "hops", item.GetURL().GetHops(), "retry", retry, "sleep_time", retrySleepTime.String())
@@ -352,6 +361,7 @@ func archive(workerID string, seed *models.Item) {
 			logger.Info("url archived", "url", item.GetURL().String(), "seed_id", seed.GetShortID(), "item_id", item.GetShortID(), "depth", item.GetDepth(), "hops", item.GetURL().GetHops(), "status", resp.StatusCode)
 
 			item.SetStatus(models.ItemArchived)
+			verifhook.At("arch.item.archived", item)
 		}(items[i])
 	}
 
